@@ -247,8 +247,6 @@ def check_items(prop, items, seed=0, do_search=True, per=6):
             it.status = "known:S5"
         elif ideal_ok is False and s19_region(it):
             it.status = "known:S19"
-        elif ideal_ok is False and s9_region(it):
-            it.status = "known:S9"
         elif ideal_ok is False and s39_region(it):
             it.status = "known:S39"
         elif ideal_ok is False and s43_region(it):
